@@ -109,12 +109,13 @@ def racing_fetch(obs, a, prev, att):
     ops = [o for o in obs['store_ops'] if o['id'] is not None and
            hq_norm(o['id']) == id]
     gets = [o for o in ops if o['op'] == 'get' and o['s1'] is not None and
-            o['s1'] < att['start_seq']]
-    if not gets:
-        # dispatched by enqueue() itself after an earlier, dequeue-dispatched
-        # attempt had already finished
+            o['ok'] and o['s1'] < att['start_seq']]
+    g = max(gets, key=lambda o: o['s1']) if gets else None
+    if g is None or g['s1'] < prev['start_seq']:
+        # no fetch since the previous attempt began: dispatched by enqueue()
+        # itself, on write() returning after an earlier, dequeue-dispatched
+        # attempt had already run
         return att['attempts_arg'] == 0 and att is not a['attempts'][0]
-    g = max(gets, key=lambda o: o['s1'])
     pend = prev['end_seq'] if prev['end_seq'] is not None else float('inf')
     done = pend
     for o in ops:
